@@ -72,3 +72,16 @@ func oneChar(q string, i int) *tok {
 	}
 	return nil
 }
+
+// An interface whose contract names its outcome by a spec function; an implementation that
+// declares the naming clause definitional (ifaceassumed) must still prove its own clauses from the
+// code, not from that clause.
+type shape interface{ area() int }
+
+type sq struct{ s int }
+
+func (q *sq) area() int { return q.s + q.s } // not s * s: the clause `twin` below is false
+
+type sq2 struct{ s int }
+
+func (q *sq2) area() int { return q.s * 3 }
